@@ -10,6 +10,14 @@ CHECKS = {
             "reference-model runtime monitor: generated programs run by the real engine (Script.Add/Compile/RunContext/GetAll) and by an independent tree-walking reference interpreter executed next to it; outcome (globals, error kind) compared per program; VM probe records opcode coverage",
             "Each generated program (whole grammar, all builtins, host inputs of every runtime type, plus directed compositions) is executed by the real compiler+VM and by the reference interpreter under 4 map-order/append-capacity policies; final globals are compared structurally and errors by message. Programs whose outcome depends on an open choice are discarded and counted. Held on the programs listed in evidence; the model is an oracle, not a proof.",
             "Trusted: the parser (AST shared by both sides), harness/ref (the model; characterised rules in harness/ref/CHARACTERISED.md). Limits 64 KiB for strings/bytes on both sides; budget-exceeding runs are inconclusive."),
+    "C02": ("exploration",
+            "invariant monitor on emitted artefacts (bytecode verifier run at the quiescent point after Compiler.Bytecode() and after RemoveDuplicates) cross-validated by a VM-probe assertion on every dispatched instruction",
+            "Every function (main, nested literals, closures, source modules; called or not) of every generated program is decoded and checked: instruction boundaries, jump targets, constant/local/free/builtin/global operands, CLOSURE targets and free counts, one non-negative operand-stack height per instruction along all paths, RET/SUSPEND heights, no fall-through. The program is then run; at every dispatch the probe asserts that ip is an instruction start and that sp-base-NumLocals equals the verifier's height, a clean run must leave the stack empty and no error may be an internal fault. Boundary probes require a compile error beyond each static limit. Held on the programs listed in evidence; programs nobody generated are not covered.",
+            "Trusted: parser.OpcodeOperands for decoding (cross-checked by the probe: a wrong width derails the height assertion), the stack-effect table (validated against the machine at run time)."),
+    "C11": ("exploration",
+            "metamorphic runtime monitor: each program and its scope-moving transformations (into a function, into a module, sub-expressions into immediately-invoked literals, consistent renaming, compositions) are run by the real engine and compared; reference interpreter as additional oracle for the base program; VM probe proves all three instruction families were exercised",
+            "For every generated closure-heavy program P up to 10 variants T(P) are produced textually from the parser's positions; P and each T(P) run through Script.Compile/RunContext and must give the same values for P's top-level variables or the same error message and line. P is also compared with the reference interpreter. Held on the (program, transformation) pairs listed in evidence.",
+            "Trusted: the parser's node positions (used to cut expressions), the generator's guarantee that no closure outlives the loop iteration of a variable it captures."),
     "C03": ("translation_validation",
             "differential runtime monitor + assertion on hooked optimizer state: every program compiled with and without dead-code elimination (build-tagged hook) and both run under the VM probe; optimizeFunc's own tables checked against an independently recomputed CFG",
             "Per program: (a) optimized and keep-dead twins are compiled in one process and run; globals, full error text and every trace position must be identical; (b) for every optimizeFunc invocation the hook delivers the original stream, the position map, the new stream and both source maps, and the monitor asserts that nothing removed is CFG-reachable, every kept jump points at the image of its target, source-map entries travel with their instruction and order/content is preserved. Held on the programs listed in evidence.",
